@@ -59,3 +59,7 @@ pub mod c11;
 pub mod c08;
 // cone properties C13 / C15
 pub mod c1315;
+// ---------------------------------------------------------------------------
+// termination test / certificates / report (C01-C03)
+// ---------------------------------------------------------------------------
+pub mod term;
